@@ -83,3 +83,33 @@ Proof.
   - unfold nearest_geom_ok. cbn. repeat split; try lia; vm_compute; reflexivity.
   - split; vm_compute; reflexivity.
 Qed.
+
+(* ---------- why the stripes of a nearest-upscaled operator must start on even rows ---------- *)
+(* The hardware replicates rows starting at the first row of the IFM box it is handed.  If a stripe of a x2 nearest
+   upscaled operator (stride 1, no leading padding in the operator) starts at an ODD output row st, then NO choice of
+   (IFM box, pad_top >= 0, pad_bottom) describes it: tap 0 of output rows st and st+1 must come from the two different IFM
+   rows (st-1)/2 and (st+1)/2, but the hardware resolves both to the first row of the box (or the first to padding).
+   This is the requirement behind the even stripe heights forced by Scheduler.propose_minimal_schedule /
+   propose_schedule_striping for cascades that contain a nearest-upscaling operator. *)
+Lemma nearest_odd_stripe_start_impossible_lemma H a n b0 b1 p0 p1 kd :
+  0 <= a -> 2 * a + 2 < 2 * H -> 0 <= p0 ->
+  ~ (hw_tap_up RS_NEAREST b0 b1 p0 p1 n 1 kd 0 0 = ref_tap_up RS_NEAREST H 0 1 (2 * a + 1) 0 /\
+     hw_tap_up RS_NEAREST b0 b1 p0 p1 n 1 kd 1 0 = ref_tap_up RS_NEAREST H 0 1 (2 * a + 2) 0).
+Proof.
+  intros Ha HH Hp [E0 E1]. unfold hw_tap_up, ref_tap_up in E0, E1.
+  change (RS_NEAREST =? RS_TRANSPOSE) with false in E0, E1. cbn [andb] in E0, E1.
+  rewrite ?Z.mul_1_r, ?Z.mul_0_l, ?Z.add_0_r, ?Z.sub_0_r in E0, E1.
+  assert (D1 : (2 * a + 1) / 2 = a) by (replace (2 * a + 1) with (1 + a * 2) by lia; rewrite Z.div_add by lia; reflexivity).
+  assert (D2 : (2 * a + 2) / 2 = a + 1) by (replace (2 * a + 2) with ((a + 1) * 2) by lia; apply Z.div_mul; lia).
+  rewrite D1 in E0. rewrite D2 in E1.
+  destruct (Z.ltb_spec (2 * a + 1) 0); [lia|]. destruct (Z.leb_spec (2 * H) (2 * a + 1)); [lia|].
+  destruct (Z.ltb_spec (2 * a + 2) 0); [lia|]. destruct (Z.leb_spec (2 * H) (2 * a + 2)); [lia|].
+  cbn [orb] in E0, E1.
+  destruct (Z.eq_dec p0 0) as [->|Hne].
+  - change ((1 - 0) / 2) with 0 in E1. rewrite ?Z.add_0_r in E0, E1.
+    repeat match type of E0 with (if ?c then _ else _) = _ => destruct c; try discriminate end.
+    repeat match type of E1 with (if ?c then _ else _) = _ => destruct c; try discriminate end.
+    injection E0 as E0. injection E1 as E1. lia.
+  - assert (Hneg : (0 * 1 - p0 <? 0) = true) by (apply Z.ltb_lt; lia).
+    rewrite ?Z.mul_0_l in *. rewrite Hneg in E0. cbn [orb] in E0. discriminate.
+Qed.
